@@ -60,6 +60,19 @@ def run(ctx) -> None:
     check_required(ctx)
     check_modeltype(ctx)
     check_fld(ctx)
+    # the inference the schema is fed from (shared with C15): bound arithmetic per comparator, folding direction, intersection
+    ctx.rule("BOUND", "each (operand order, comparator) arm of the length matcher yields the oracle's (bound kind, offset) (shared with C15)", floor=12)
+    ctx.rule("DIR", "min bounds fold with max, max bounds fold with min; merging two ranges intersects them (shared with C15)", floor=8)
+    ctx.rule("INTER", "set constraints are intersected; patterns de-duplicated (shared with C15)", floor=3)
+    from . import c15 as _c15
+    _c15._check_bounds(ctx)
+    _c15._check_direction(ctx)
+    _c15._check_intersection(ctx)
+    # the schema keyword `pattern` is a search; it agrees with the fully matching invariant only for patterns anchored as a whole,
+    # which the front end enforces (shared with C06)
+    ctx.rule("ANCHOR-ATOMS", "the front end accepts a pattern only with one top-level alternative, first ^ and last $ (shared with C06)", floor=4)
+    from ..rules import anchor as _anchor
+    _anchor.check_anchor_agreement(ctx, "ANCHOR-ATOMS")
     ctx.rule("STACK-ORDER", "constraints of ancestors / constrained-primitive chains are stacked parents-first (shared with C15)", floor=2)
     from ..rules import stack
     for m in ctx.p.modules.values():
